@@ -55,9 +55,9 @@ Example C07_remove_base_guards_used :
 Proof. vm_compute. repeat split. Qed.
 
 (* ---- the property for every reachable object -------------------------------------------------
-   [norm_outside_findings mask u]: the normalization step is outside the two known defect shapes
-   (D7b [exposes_colon], D14 [exposes_dslash]; Props/C07norm.v shows they are exact and refutes the
-   statement inside them).  No other hypothesis: parse, resolve, create-reference, make-owner steps
+   [norm_outside_findings mask u] = [exposes_colon mask u = false]: the normalization step is outside the
+   known defect shape D7b (Props/C07norm.v shows it is exact and refutes the statement inside it; the
+   former second shape, D14, was repaired: normalization now guards a path that would begin with "//").  No other hypothesis: parse, resolve, create-reference, make-owner steps
    are unrestricted, and failed steps are part of the histories. *)
 Theorem C07_reachable_wf : forall ops,
   normalize_steps_ok norm_outside_findings empty_store ops ->
